@@ -19,15 +19,20 @@ mod search;
 mod sim;
 mod summary;
 mod sweep;
+mod total;
 mod vcp;
 
 use common::Args;
+
+#[global_allocator]
+static ALLOC: total::Counting = total::Counting;
 
 fn main() {
     common::quiet_panics();
     let args = Args::parse();
     match args.module.as_str() {
         "sweep" => sweep::run(&args),
+        "total" => total::run(&args),
         "scan" => scan::run(&args),
         "radial" => radial::run(&args),
         "container" => container::run(&args),
